@@ -33,3 +33,38 @@ fn c00_setup_probe() {
     let x: u8 = kani::any();
     assert!(x as u16 <= 255);
 }
+
+// C17 (one clause only): "the inline preview is a prefix of [the stored output] within its own limit" -- the truncation
+// kernel of the foreground shell tool. ANY valid UTF-8 text of 4 bytes (1- to 4-byte characters) and ANY limit 0..=5:
+// the preview is byte-for-byte a prefix of the text, never longer than the limit, ends on a character boundary, is the
+// LONGEST such prefix, and `truncated` is reported exactly when something was cut.
+#[kani::proof]
+#[kani::unwind(8)]
+// NOT REGISTERED (name outside the cNN_ convention): does not finish in 600 s (String::from_utf8_lossy + repeated
+// from_utf8 over symbolic prefixes); C17 stays not applicable.
+fn zz_c17_truncate_utf8_prefix() {
+    let bytes: [u8; 4] = kani::any();
+    kani::assume(core::str::from_utf8(&bytes).is_ok());
+    let max: usize = kani::any();
+    kani::assume(max <= 5);
+    let (text, truncated, used) = truncate_utf8(&bytes, max);
+    assert!(used <= max && used <= 4, "preview longer than its limit");
+    assert!(text.len() == used, "preview text and reported length disagree");
+    let tb = text.as_bytes();
+    let mut i = 0;
+    while i < used {
+        assert!(tb[i] == bytes[i], "preview is not a prefix of the output");
+        i += 1;
+    }
+    assert!(truncated == (4 > max), "truncation flag wrong");
+    if truncated {
+        let mut k = used + 1;
+        while k <= max {
+            assert!(core::str::from_utf8(&bytes[..k]).is_err(), "preview is not the longest prefix within the limit");
+            k += 1;
+        }
+    }
+    kani::cover!(truncated && used < max, "cut moved back to a character boundary");
+    kani::cover!(!truncated, "nothing cut");
+    core::mem::forget(text);
+}
